@@ -7,13 +7,13 @@
 //! Field types and value kinds are constants of each obligation (choosing them
 //! symbolically does not terminate under CBMC); leaves are symbolic.
 use super::super::*;
-use super::common::set_slots2;
+use super::common::set_slots_raw;
 use crate::lhs_types::verif_kani::c08::{map_empty, map_is_borrowed};
 use crate::lhs_types::verif_kani::common::array_owned;
 use crate::lhs_types::{Array, Bytes, Map};
 use crate::list_matcher::{ListDefinition, ListMatcher};
-use crate::scheme::verif_kani::c08::scheme_named;
-use crate::scheme::verif_kani::common::{builder_of, field_ref, list_ref, push_list, scheme_of};
+use crate::scheme::verif_kani::c08::{builder_over, field_store2};
+use crate::scheme::verif_kani::common::{field_ref, list_ref, push_list};
 use crate::types::Type;
 use serde::{Deserialize, Serialize};
 
@@ -116,15 +116,18 @@ fn slot_of<const K: usize>(present: bool, m: i64) -> Option<LhsValue<'static>> {
 /// Symbolic: all leaves, presence of both slots.  Constants: FT, VK and whether
 /// the field handle comes from a second, structurally identical scheme.
 fn set_field_value_contract<const FT: usize, const VK: usize, const FOREIGN: bool>() {
-    let s1 = scheme_of(&[(ty::<FT>(), true), (Type::Int, true)], true);
-    let s2 = scheme_of(&[(ty::<FT>(), true), (Type::Int, true)], true);
+    let mut f1 = field_store2(ty::<FT>(), Type::Int);
+    let mut f2 = field_store2(ty::<FT>(), Type::Int);
+    let s1 = unsafe { builder_over(&mut f1) }.build();
+    let s2 = unsafe { builder_over(&mut f2) }.build();
     let mut ctx = ExecutionContext::<()>::new(&s1);
     let p0: i64 = kani::any();
     let p1: i64 = kani::any();
     let x: i64 = kani::any();
     let had0: bool = kani::any();
     let had1: bool = kani::any();
-    set_slots2(&mut ctx, slot_of::<FT>(had0, p0), slot_of::<0>(had1, p1));
+    let mut slots = [slot_of::<FT>(had0, p0), slot_of::<0>(had1, p1)];
+    unsafe { set_slots_raw(&mut ctx, &mut slots[..]) };
     let foreign = FOREIGN;
 
     let r = ctx.set_field_value(field_ref(if FOREIGN { &s2 } else { &s1 }, 0), value::<VK>(x));
@@ -200,13 +203,15 @@ fn set_field_value_contract<const FT: usize, const VK: usize, const FOREIGN: boo
     kani::cover!(outcome == expected_outcome && !had0 && !had1, "both slots were empty");
     std::mem::forget(ctx);
     std::mem::forget((s1, s2));
+    std::mem::forget((slots, f1, f2));
 }
 
 macro_rules! set_pairs {
     ($($name:ident: $ft:literal, $vk:literal, $foreign:literal;)*) => {
         $(
             #[kani::proof]
-            #[kani::unwind(4)]
+            #[kani::unwind(3)]
+            #[kani::stub(<crate::types::ExpectedTypeList as std::convert::From<crate::types::Type>>::from, crate::types::verif_kani::c08::expected_type_list_from_type__contract)]
             fn $name() {
                 set_field_value_contract::<$ft, $vk, $foreign>()
             }
@@ -238,11 +243,13 @@ set_pairs! {
 /// K2: a field of another scheme is a contract violation of get_field_value
 /// (documented assertion): it panics, it never reads another scheme's slot.
 #[kani::proof]
-#[kani::unwind(4)]
+#[kani::unwind(3)]
 #[kani::should_panic]
 fn get_field_value__foreign_field_panics() {
-    let s1 = scheme_of(&[(Type::Int, true)], true);
-    let s2 = scheme_of(&[(Type::Int, true)], true);
+    let mut f1 = field_store2(Type::Int, Type::Int);
+    let mut f2 = field_store2(Type::Int, Type::Int);
+    let s1 = unsafe { builder_over(&mut f1) }.build();
+    let s2 = unsafe { builder_over(&mut f2) }.build();
     let ctx = ExecutionContext::<()>::new(&s1);
     let _ = ctx.get_field_value(field_ref(&s2, 0));
 }
@@ -257,12 +264,14 @@ fn get_field_value__foreign_field_panics() {
 /// full type equals that field's type; then that slot := v, prev = old slot;
 /// otherwise Err(UnknownField | TypeMismatch) and the WHOLE view is unchanged.
 fn set_by_name_contract<const FT: usize, const VK: usize, const NAME: usize, const P: bool>() {
-    let s = scheme_named(&[("a", ty::<FT>()), ("b", Type::Int)]);
+    let mut f = field_store2(ty::<FT>(), Type::Int);
+    let s = unsafe { builder_over(&mut f) }.build();
     let mut ctx = ExecutionContext::<()>::new(&s);
     let p0: i64 = kani::any();
     let p1: i64 = kani::any();
     let x: i64 = kani::any();
-    set_slots2(&mut ctx, slot_of::<FT>(P, p0), slot_of::<0>(P, p1));
+    let mut slots = [slot_of::<FT>(P, p0), slot_of::<0>(P, p1)];
+    unsafe { set_slots_raw(&mut ctx, &mut slots[..]) };
     let name = match NAME {
         0 => "a",
         1 => "b",
@@ -311,14 +320,16 @@ fn set_by_name_contract<const FT: usize, const VK: usize, const NAME: usize, con
     kani::cover!(outcome == (if NAME >= 2 { 2 } else if should_succeed { 1 } else { 3 }));
     std::mem::forget(ctx);
     std::mem::forget(s);
+    std::mem::forget((slots, f));
 }
 
 macro_rules! by_name {
     ($($name:ident: $ft:literal, $vk:literal, $n:literal, $p:literal;)*) => {
         $(
             #[kani::proof]
-            #[kani::unwind(4)]
+            #[kani::unwind(3)]
             #[kani::stub(crate::scheme::Scheme::get_field, crate::scheme::verif_kani::c08::get_field__contract)]
+            #[kani::stub(<crate::types::ExpectedTypeList as std::convert::From<crate::types::Type>>::from, crate::types::verif_kani::c08::expected_type_list_from_type__contract)]
             fn $name() {
                 set_by_name_contract::<$ft, $vk, $n, $p>()
             }
@@ -388,12 +399,14 @@ fn rec_mut(m: &mut dyn ListMatcher) -> &mut Rec {
     m.as_any_mut().downcast_mut::<Rec>().unwrap()
 }
 
-/// Scheme (f0: K0, f1: K1) with two lists (Int -> Def(a), Ip -> Def(b)).
-fn scheme_with_lists<const K0: usize, const K1: usize>(a: i64, b: i64) -> Scheme {
-    let mut builder = builder_of(&[(ty::<K0>(), true), (ty::<K1>(), true)]);
-    push_list(&mut builder, Type::Int, Box::new(Def(a)));
-    push_list(&mut builder, Type::Ip, Box::new(Def(b)));
-    builder.build()
+/// Scheme over the given field storage with two lists (Int -> Def(a), Ip -> Def(b)).
+macro_rules! scheme_with_lists {
+    ($store:ident, $a:expr, $b:expr) => {{
+        let mut builder = unsafe { builder_over(&mut $store) };
+        push_list(&mut builder, Type::Int, Box::new(Def($a)));
+        push_list(&mut builder, Type::Ip, Box::new(Def($b)));
+        builder.build()
+    }};
 }
 
 // ---------------------------------------------------------------------------
@@ -408,11 +421,13 @@ fn scheme_with_lists<const K0: usize, const K1: usize>(a: i64, b: i64) -> Scheme
 fn clear_contract<const K0: usize, const K1: usize, const P0: bool, const P1: bool>() {
     let a: i64 = kani::any();
     let b: i64 = kani::any();
-    let s = scheme_with_lists::<K0, K1>(a, b);
+    let mut f = field_store2(ty::<K0>(), ty::<K1>());
+    let s = scheme_with_lists!(f, a, b);
     let mut ctx = ExecutionContext::<()>::new(&s);
     let m0: i64 = kani::any();
     let m1: i64 = kani::any();
-    set_slots2(&mut ctx, slot_of::<K0>(P0, m0), slot_of::<K1>(P1, m1));
+    let mut slots = [slot_of::<K0>(P0, m0), slot_of::<K1>(P1, m1)];
+    unsafe { set_slots_raw(&mut ctx, &mut slots[..]) };
     assert!(ctx.list_matchers.len() == 2);
     assert!(rec(&*ctx.list_matchers[0]).cleared == 0 && rec(&*ctx.list_matchers[1]).cleared == 0);
 
@@ -429,13 +444,14 @@ fn clear_contract<const K0: usize, const K1: usize, const P0: bool, const P1: bo
     kani::cover!(true);
     std::mem::forget(ctx);
     std::mem::forget(s);
+    std::mem::forget((slots, f));
 }
 
 macro_rules! clear_harness {
     ($($name:ident: $k0:literal, $k1:literal, $p0:literal, $p1:literal;)*) => {
         $(
             #[kani::proof]
-            #[kani::unwind(4)]
+            #[kani::unwind(3)]
             fn $name() {
                 clear_contract::<$k0, $k1, $p0, $p1>()
             }
@@ -455,17 +471,18 @@ clear_harness! {
 // K4: clone_with
 // ---------------------------------------------------------------------------
 
-/// K4 `clone_with(u)`: the clone has the same scheme, an equal view (values and
-/// matcher state) and the given user data; afterwards the two are independent:
-/// a set / a matcher change on either side leaves the other unchanged.
-fn clone_with_contract<const K0: usize, const P0: bool, const P1: bool>() {
-    let a: i64 = kani::any();
-    let b: i64 = kani::any();
-    let s = scheme_with_lists::<K0, 6>(a, b);
+/// K4 `clone_with(u)`, values: the clone has the same scheme, an equal view and
+/// the given user data; afterwards the two are independent: a set on either
+/// side leaves the other unchanged.  (Scheme without lists; the matchers are
+/// the next obligation - together they exceed 5 min of SAT time.)
+fn clone_with_values_contract<const K0: usize, const P0: bool, const P1: bool>() {
+    let mut f = field_store2(ty::<K0>(), ty::<6>());
+    let s = unsafe { builder_over(&mut f) }.build();
     let mut ctx = ExecutionContext::<()>::new(&s);
     let m0: i64 = kani::any();
     let m1: i64 = kani::any();
-    set_slots2(&mut ctx, slot_of::<K0>(P0, m0), slot_of::<6>(P1, m1));
+    let mut slots = [slot_of::<K0>(P0, m0), slot_of::<6>(P1, m1)];
+    unsafe { set_slots_raw(&mut ctx, &mut slots[..]) };
     let u: u8 = kani::any();
 
     let mut c = ctx.clone_with(u);
@@ -475,8 +492,7 @@ fn clone_with_contract<const K0: usize, const P0: bool, const P1: bool>() {
     assert!(c.values.len() == 2 && ctx.values.len() == 2);
     assert!(slot_is::<K0>(&c.values[0], P0, m0) && slot_is::<6>(&c.values[1], P1, m1), "the clone has an equal view");
     assert!(slot_is::<K0>(&ctx.values[0], P0, m0) && slot_is::<6>(&ctx.values[1], P1, m1), "cloning does not change the original");
-    assert!(c.list_matchers.len() == 2 && ctx.list_matchers.len() == 2);
-    assert!(rec(&*c.list_matchers[0]).id == a && rec(&*c.list_matchers[1]).id == b, "matchers are cloned with their state");
+    assert!(c.list_matchers.len() == 0 && ctx.list_matchers.len() == 0);
 
     // a write to the clone is not seen by the original
     let x: i64 = kani::any();
@@ -492,34 +508,66 @@ fn clone_with_contract<const K0: usize, const P0: bool, const P1: bool>() {
     std::mem::forget(r);
     assert!(slot_is::<6>(&ctx.values[1], true, y));
     assert!(slot_is::<6>(&c.values[1], P1, m1), "a write to the original leaves the clone unchanged");
-    // matcher state is independent too
-    let z: i64 = kani::any();
-    rec_mut(c.get_list_matcher_mut(list_ref(&s, 0))).id = z;
-    assert!(rec(&*ctx.list_matchers[0]).id == a, "matcher state of the original is independent of the clone");
-    assert!(rec(&*c.list_matchers[0]).id == z && rec(&*c.list_matchers[1]).id == b);
-    kani::cover!(x != m0 && z != a);
+    kani::cover!(x != m0 && (y & 1) != (m1 & 1));
     std::mem::forget(c);
     std::mem::forget(ctx);
     std::mem::forget(s);
+    std::mem::forget((slots, f));
 }
 
 macro_rules! clone_harness {
     ($($name:ident: $k0:literal, $p0:literal, $p1:literal;)*) => {
         $(
             #[kani::proof]
-            #[kani::unwind(4)]
+            #[kani::unwind(3)]
+            #[kani::stub(<crate::types::ExpectedTypeList as std::convert::From<crate::types::Type>>::from, crate::types::verif_kani::c08::expected_type_list_from_type__contract)]
             fn $name() {
-                clone_with_contract::<$k0, $p0, $p1>()
+                clone_with_values_contract::<$k0, $p0, $p1>()
             }
         )*
     };
 }
 
 clone_harness! {
-    clone_with__independent_both_set: 0, true, true;
-    clone_with__independent_none_set: 0, false, false;
-    clone_with__independent_first_set: 0, true, false;
-    clone_with__independent_bytes_value: 1, true, true;
+    clone_with__values_independent_both_set: 0, true, true;
+    clone_with__values_independent_none_set: 0, false, false;
+    clone_with__values_independent_first_set: 0, true, false;
+    clone_with__values_independent_bytes_value: 1, true, true;
+}
+
+/// K4 `clone_with(u)`, list matchers: the clone gets a copy of every matcher
+/// with its state; afterwards matcher state is independent in both directions.
+#[kani::proof]
+#[kani::unwind(3)]
+fn clone_with__matchers_cloned_and_independent() {
+    let a: i64 = kani::any();
+    let b: i64 = kani::any();
+    let mut f = field_store2(Type::Int, Type::Bool);
+    let s = scheme_with_lists!(f, a, b);
+    let mut ctx = ExecutionContext::<()>::new(&s);
+    let mut slots: [Option<LhsValue<'static>>; 2] = [None, None];
+    unsafe { set_slots_raw(&mut ctx, &mut slots[..]) };
+    let w: i64 = kani::any();
+    rec_mut(ctx.get_list_matcher_mut(list_ref(&s, 1))).id = w;
+
+    let mut c = ctx.clone_with(());
+
+    assert!(*c.scheme() == s);
+    assert!(c.list_matchers.len() == 2 && ctx.list_matchers.len() == 2);
+    assert!(rec(&*c.list_matchers[0]).id == a && rec(&*c.list_matchers[1]).id == w, "matchers are cloned with their state");
+    assert!(rec(&*ctx.list_matchers[0]).id == a && rec(&*ctx.list_matchers[1]).id == w, "cloning does not change the original");
+    let z: i64 = kani::any();
+    rec_mut(c.get_list_matcher_mut(list_ref(&s, 0))).id = z;
+    assert!(rec(&*ctx.list_matchers[0]).id == a, "matcher state of the original is independent of the clone");
+    let y: i64 = kani::any();
+    rec_mut(ctx.get_list_matcher_mut(list_ref(&s, 1))).id = y;
+    assert!(rec(&*c.list_matchers[1]).id == w, "matcher state of the clone is independent of the original");
+    assert!(rec(&*c.list_matchers[0]).id == z && rec(&*ctx.list_matchers[1]).id == y);
+    kani::cover!(z != a && y != w);
+    std::mem::forget(c);
+    std::mem::forget(ctx);
+    std::mem::forget(s);
+    std::mem::forget((slots, f));
 }
 
 // ---------------------------------------------------------------------------
@@ -533,11 +581,13 @@ clone_harness! {
 fn borrow_with_contract<const P0: bool, const P1: bool>() {
     let a: i64 = kani::any();
     let b: i64 = kani::any();
-    let s = scheme_with_lists::<0, 6>(a, b);
+    let mut f = field_store2(ty::<0>(), ty::<6>());
+    let s = scheme_with_lists!(f, a, b);
     let mut ctx = ExecutionContext::<u16>::new(&s);
     let m0: i64 = kani::any();
     let m1: i64 = kani::any();
-    set_slots2(&mut ctx, slot_of::<0>(P0, m0), slot_of::<6>(P1, m1));
+    let mut slots = [slot_of::<0>(P0, m0), slot_of::<6>(P1, m1)];
+    unsafe { set_slots_raw(&mut ctx, &mut slots[..]) };
     let w: u16 = kani::any();
     *ctx.get_user_data_mut() = w;
     let u: u8 = kani::any();
@@ -583,22 +633,26 @@ fn borrow_with_contract<const P0: bool, const P1: bool>() {
     kani::cover!(x != m0 && z != b);
     std::mem::forget(ctx);
     std::mem::forget(s);
+    std::mem::forget((slots, f));
 }
 
 #[kani::proof]
-#[kani::unwind(4)]
+#[kani::unwind(3)]
+#[kani::stub(<crate::types::ExpectedTypeList as std::convert::From<crate::types::Type>>::from, crate::types::verif_kani::c08::expected_type_list_from_type__contract)]
 fn borrow_with__writes_through_both_set() {
     borrow_with_contract::<true, true>()
 }
 
 #[kani::proof]
-#[kani::unwind(4)]
+#[kani::unwind(3)]
+#[kani::stub(<crate::types::ExpectedTypeList as std::convert::From<crate::types::Type>>::from, crate::types::verif_kani::c08::expected_type_list_from_type__contract)]
 fn borrow_with__writes_through_none_set() {
     borrow_with_contract::<false, false>()
 }
 
 #[kani::proof]
-#[kani::unwind(4)]
+#[kani::unwind(3)]
+#[kani::stub(<crate::types::ExpectedTypeList as std::convert::From<crate::types::Type>>::from, crate::types::verif_kani::c08::expected_type_list_from_type__contract)]
 fn borrow_with__writes_through_second_set() {
     borrow_with_contract::<false, true>()
 }
@@ -608,11 +662,13 @@ fn borrow_with__writes_through_second_set() {
 fn take_with_contract<const K0: usize, const P0: bool, const P1: bool>() {
     let a: i64 = kani::any();
     let b: i64 = kani::any();
-    let s = scheme_with_lists::<K0, 6>(a, b);
+    let mut f = field_store2(ty::<K0>(), ty::<6>());
+    let s = scheme_with_lists!(f, a, b);
     let mut ctx = ExecutionContext::<u8>::new(&s);
     let m0: i64 = kani::any();
     let m1: i64 = kani::any();
-    set_slots2(&mut ctx, slot_of::<K0>(P0, m0), slot_of::<6>(P1, m1));
+    let mut slots = [slot_of::<K0>(P0, m0), slot_of::<6>(P1, m1)];
+    unsafe { set_slots_raw(&mut ctx, &mut slots[..]) };
     let w: u8 = kani::any();
     *ctx.get_user_data_mut() = w;
     let z: i64 = kani::any();
@@ -626,16 +682,17 @@ fn take_with_contract<const K0: usize, const P0: bool, const P1: bool>() {
     kani::cover!(true);
     std::mem::forget(t);
     std::mem::forget(s);
+    std::mem::forget((slots, f));
 }
 
 #[kani::proof]
-#[kani::unwind(4)]
+#[kani::unwind(3)]
 fn take_with__preserves_view_both_set() {
     take_with_contract::<2, true, true>()
 }
 
 #[kani::proof]
-#[kani::unwind(4)]
+#[kani::unwind(3)]
 fn take_with__preserves_view_first_empty() {
     take_with_contract::<0, false, true>()
 }
